@@ -1,12 +1,478 @@
 /-
   TE.Driver.Ops — `op.<primitive>` requests: the Lean definitions of the torch primitives the models are
   built from (sort, diff mask, cumsum, searchsorted, histc, argmax, topk, scatter, masked scatter, trapz …),
-  exposed one by one so that the harness can compare each with the real torch kernel (op-level correspondence).
+  exposed one by one so that the harness can compare each with the real torch kernel (op-level correspondence,
+  harness/opscheck.py).
+
+  Every adapter below only parses the protocol arguments and calls the EXISTING definition of
+  TE/Model/*.lean — nothing is re-implemented here.  Families (the harness batches one family per driver call):
+    count   TE.Count   (+ TE.Index.scatterAddI)      curve   TE.Curve        binned  TE.Binned
+    multi   TE.Multi                                  rank    TE.Rank         agg     TE.Agg
+    sync    TE.Sync (padTo / sliceTo / pmax / pmin)   window  TE.Window.place (slice assignment)
+
+  Argument conventions: tensors `SHAPE:DATA`; boolean masks are 0/1 tensors; extended scalars (NaN / ±inf)
+  are sent as a value tensor `x` plus a kind tensor `xk` (0 value, 1 nan, 2 +inf, 3 -inf).
 -/
 import TE.Driver.Fam
+import TE.Model.Count
+import TE.Model.Curve
+import TE.Model.Binned
+import TE.Model.Multi
+import TE.Model.Rank
+import TE.Model.Agg
+import TE.Model.Sync
+import TE.Model.Index
 namespace TE.Driver
 open TE
 
-def opsFns : List (String × (Args → Except Err String)) := []
+namespace OpsA
+
+/-! ### argument / result helpers (protocol only) -/
+
+def ten (a : Args) (k : String) : Except Err T := liftP (a.tensor k)
+def dat (a : Args) (k : String) : Except Err (List Q) := do pure (← ten a k).data
+def natA (a : Args) (k : String) : Except Err Nat := liftP (a.nat k)
+def intA (a : Args) (k : String) : Except Err Int := liftP (a.int k)
+def ratA (a : Args) (k : String) : Except Err Q := liftP (a.rat k)
+
+def toNats (d : List Q) : Except Err (List Nat) :=
+  liftP (d.mapM fun q => match qToNat? q with | some n => .ok n | none => .error "not a natural number")
+def toInts (d : List Q) : Except Err (List Int) :=
+  liftP (d.mapM fun q => match qToInt? q with | some n => .ok n | none => .error "not an integer")
+def nats (a : Args) (k : String) : Except Err (List Nat) := do toNats (← dat a k)
+def ints (a : Args) (k : String) : Except Err (List Int) := do toInts (← dat a k)
+def toBools (d : List Q) : List Bool := d.map (· != 0)
+def bools (a : Args) (k : String) : Except Err (List Bool) := do pure (toBools (← dat a k))
+
+/-- rows of a 2-D tensor (`(0, c)` has no rows, `(n, 0)` has `n` empty rows). -/
+def rowsOf (x : T) : Except Err (List (List Q)) :=
+  match x.shape with
+  | [_, _] => .ok x.rows
+  | _ => .error .other
+def rows (a : Args) (k : String) : Except Err (List (List Q)) := do rowsOf (← ten a k)
+def cols2 (x : T) : Nat := x.shape.getD 1 0
+
+def mkXQ (v k : Q) : XQ := if k == 0 then .val v else if k == 1 then .nan else if k == 2 then .pinf else .ninf
+/-- extended scalars: values in `k`, kinds in `k ++ "k"`. -/
+def xqs (a : Args) (k : String) : Except Err (List XQ) := do
+  let v ← dat a k
+  let kd ← dat a (k ++ "k")
+  if v.length != kd.length then throw .other
+  pure (List.zipWith mkXQ v kd)
+
+def outN (l : List Nat) : String := showVecQ (l.map fun (n : Nat) => (n : Q))
+def outI (l : List Int) : String := showVecQ (l.map fun (i : Int) => (i : Q))
+def outB (l : List Bool) : String := showVecQ (l.map b2q)
+def outMatB (m : List (List Bool)) (c : Nat) : String := showMatQ (m.map fun r => r.map b2q) c
+def outs (l : List String) : String := " ".intercalate l
+
+/-! ### count (TE/Model/Count.lean, TE/Model/Basic.lean) -/
+
+/-- `torch.where(input < threshold, 0, 1)` -/
+def opThresh (a : Args) : Except Err String := do
+  let thr ← ratA a "threshold"
+  pure (outN ((← dat a "input").map (Count.thresh thr)))
+
+/-- `torch.argmax(input, dim=1)` -/
+def opArgmaxFirst (a : Args) : Except Err String := do
+  pure (outN ((← rows a "input").map Count.argmaxFirst))
+
+/-- `zeros(n).scatter_(0, idx, vals, reduce="add")`, index as the user passes it (possibly negative). -/
+def opScatterAdd (a : Args) : Except Err String := do
+  let r ← Index.scatterAddI (← natA a "n") (← ints a "index") (← dat a "src")
+  pure (showVecQ r)
+
+/-- `zeros(n).scatter_(0, idx, 1, reduce="add")` -/
+def opScatterOnes (a : Args) : Except Err String := do
+  let idx ← ints a "index"
+  if !(idx.all (Index.inRange (← natA a "n"))) then throw .runtime
+  pure (showVecQ (← Count.scatterOnes (← natA a "n") (idx.map Int.toNat)))
+
+/-- `torch.gt(input, gather(input, -1, target[:, None])).sum(-1)` -/
+def opRankOf (a : Args) : Except Err String := do
+  let rs ← rows a "input"; let t ← nats a "target"
+  pure (outN ((rs.zip t).map fun p => Count.rankOf p.1 p.2))
+
+/-- `(rank < k).float()` -/
+def opTopkMask (a : Args) : Except Err String := do
+  pure (showVecQ (Count.mcMaskTopk (← rows a "input") (← nats a "target") (← natA a "k")))
+
+/-- `zeros(input.size()).scatter_(-1, input.topk(k, dim=-1).indices, 1.0)` -/
+def opTopkIndicator (a : Args) : Except Err String := do
+  let x ← ten a "input"; let k ← natA a "k"
+  pure (showMatQ ((← rowsOf x).map fun r => Count.topkIndicator r k) (cols2 x))
+
+/-- `torch.nan_to_num(a / b)` on counts -/
+def opDivNan0 (a : Args) : Except Err String := do
+  pure (showVecQ (List.zipWith Count.divNan0 (← dat a "a") (← dat a "b")))
+
+/-- `a / b` (torch division) -/
+def opXdiv (a : Args) : Except Err String := do
+  pure (showVecX (List.zipWith xdiv (← dat a "a") (← dat a "b")))
+
+/-- `tensor.mean()` -/
+def opMeanX (a : Args) : Except Err String := do pure (showScalarX (Count.meanX (← dat a "input")))
+
+/-- `torch.nn.functional.normalize(m, p=1, dim=1)` -/
+def opL1Normalize (a : Args) : Except Err String := do
+  let x ← ten a "input"
+  pure (showMatQ ((← rowsOf x).map Count.l1normalize) (cols2 x))
+
+/-- `m.T` -/
+def opTranspose (a : Args) : Except Err String := do
+  let x ← ten a "input"
+  let r := Count.transpose (← rowsOf x) (cols2 x)
+  pure (showMatQ r (x.shape.getD 0 0))
+
+/-- `torch.sparse_coo_tensor(vstack((target, input)), ones_like(target), (C, C)).to_dense()` -/
+def opCooDense (a : Args) : Except Err String := do
+  let c ← natA a "n"
+  pure (showMatQ (← Count.confusionUpdate (← nats a "input") (← nats a "target") c) c)
+
+/-- `torch.where(input < threshold, 0, 1) & target` -/
+def opThreshAnd (a : Args) : Except Err String := do
+  let thr ← ratA a "threshold"
+  let xs ← dat a "input"; let ys ← nats a "target"
+  pure (outN ((xs.zip ys).map fun p => Nat.land (Count.thresh thr p.1) p.2))
+
+/-! ### curve (TE/Model/Curve.lean) -/
+
+def pts (a : Args) : Except Err (List Curve.Pt) := do
+  let s ← dat a "s"; let x ← dat a "a"; let y ← dat a "b"
+  if s.length != x.length || s.length != y.length then throw .other
+  pure ((s.zip (x.zip y)).map fun p => ⟨p.1, p.2.1, p.2.2⟩)
+
+/-- `input.sort(descending=True)` + `torch.gather(·, -1, indices)` -/
+def opSortDesc (a : Args) : Except Err String := do
+  let r := Curve.sortDesc (← pts a)
+  pure (outs [showVecQ (r.map (·.s)), showVecQ (r.map (·.a)), showVecQ (r.map (·.b))])
+
+/-- `F.pad(threshold.diff(dim=-1) != 0, [0, 1], value=1.0)` -/
+def opDiffMask (a : Args) : Except Err String := do pure (outB (Curve.diffMask (← dat a "input")))
+
+/-- `x.cumsum(-1)` -/
+def opCumsum (a : Args) : Except Err String := do pure (showVecQ (Curve.cumsum (← dat a "input")))
+
+/-- `x[mask]` (1-D) -/
+def opSelect (a : Args) : Except Err String := do
+  pure (showVecQ (Curve.select (← bools a "mask") (← dat a "input")))
+
+/-- `zeros(n).masked_scatter_(len(v) >= arange(n, 0, -1), v)` -/
+def opPadLeft (a : Args) : Except Err String := do
+  pure (showVecQ (Curve.padLeft (← natA a "n") (← dat a "src")))
+
+/-- `torch.trapz(y, x)` -/
+def opTrapz (a : Args) : Except Err String := do
+  pure (showScalarX (.val (Curve.trapz (← dat a "y") (← dat a "x"))))
+
+/-- `_riemann_integral(x, y)` -/
+def opRiemann (a : Args) : Except Err String := do
+  pure (showScalarX (.val (Curve.riemann (← dat a "x") (← dat a "y"))))
+
+/-- `torch.nan_to_num(a / b, 1.0)` -/
+def opNanTo1 (a : Args) : Except Err String := do
+  pure (showVecX (List.zipWith (fun x y => Curve.nanTo1 (xdiv x y)) (← dat a "a") (← dat a "b")))
+
+/-- `torch.max(v)` -/
+def opListMax (a : Args) : Except Err String := do
+  pure (showScalarX (.val (← Curve.listMax (← dat a "input"))))
+
+/-- `x.flip(0)` (the models write `List.reverse`) -/
+def opFlip (a : Args) : Except Err String := do pure (showVecQ (← dat a "input").reverse)
+
+/-- `tensor.mean()` -/
+def opCurveMeanX (a : Args) : Except Err String := do pure (showScalarX (Curve.meanX (← dat a "input")))
+
+/-! ### binned (TE/Model/Binned.lean) -/
+
+/-- `torch.searchsorted(threshold, input, right=True)` -/
+def opSearchsortedRight (a : Args) : Except Err String := do
+  let t ← dat a "threshold"
+  pure (outN ((← dat a "input").map (Binned.searchsortedRight t)))
+
+/-- `torch.searchsorted(threshold, input, right=True) - 1` -/
+def opBucket (a : Args) : Except Err String := do
+  let t ← dat a "threshold"
+  pure (outI ((← dat a "input").map (Binned.bucket t)))
+
+/-- `torch.histc(v, bins=b, min=0, max=b)` -/
+def opHistcUnit (a : Args) : Except Err String := do
+  pure (showVecQ (Binned.histcUnit (← natA a "bins") (← ints a "input")))
+
+/-- `v.flip(-1).cumsum(-1).flip(-1)` -/
+def opSuffixSums (a : Args) : Except Err String := do pure (showVecQ (Binned.suffixSums (← dat a "input")))
+
+/-- `2 * (searchsorted(threshold, input, right=True) - 1) + target` -/
+def opBinaryCode (a : Args) : Except Err String := do
+  let t ← dat a "threshold"; let xs ← dat a "input"; let ys ← nats a "target"
+  pure (outI ((xs.zip ys).map fun p => Binned.binaryCode t p.1 p.2))
+
+/-- multiclass `largest_index`: `2 * (C * bucket + arange(C))`, `[range(n), target] += 1` -/
+def opFlatCodeMc (a : Args) : Except Err String := do
+  let t ← dat a "threshold"; let x ← ten a "input"; let labs ← nats a "target"
+  let c := cols2 x
+  let codes := ((← rowsOf x).zip labs).map fun p =>
+    (List.range c).map fun j => ((Binned.flatCode c t (Binned.colAt p.1 j) j (if j == p.2 then 1 else 0) : Int) : Q)
+  pure (showMatQ codes c)
+
+/-- multilabel `largest_index`: `2 * (L * bucket + arange(L)) + target` -/
+def opFlatCodeMl (a : Args) : Except Err String := do
+  let t ← dat a "threshold"; let x ← ten a "input"; let tg ← ten a "target"
+  let c := cols2 x
+  let trs ← (← rowsOf tg).mapM toNats
+  let codes := ((← rowsOf x).zip trs).map fun p =>
+    (List.range c).map fun j => ((Binned.flatCode c t (Binned.colAt p.1 j) j (Binned.tgtAt p.2 j) : Int) : Q)
+  pure (showMatQ codes c)
+
+/-- `hist.reshape((T, S, 2)).transpose(0, 2).flip(-1).cumsum(-1).flip(-1)[r].T` -/
+def opMemMat (a : Args) : Except Err String := do
+  let s ← natA a "s"
+  pure (showMatQ (Binned.memMat (← natA a "t") s (← dat a "hist") (← natA a "r")) s)
+
+/-- `not (torch.diff(threshold) < 0.0).any()` -/
+def opSortedB (a : Args) : Except Err String := do pure (outB [Binned.sortedB (← dat a "threshold")])
+
+/-- `not ((threshold < 0.0).any() or (threshold > 1.0).any())` -/
+def opInUnitB (a : Args) : Except Err String := do pure (outB [Binned.inUnitB (← dat a "threshold")])
+
+/-- `F.one_hot(target, C)` -/
+def opOneHot (a : Args) : Except Err String := do
+  let c ← natA a "n"
+  pure (showMatQ ((← nats a "target").map (Binned.oneHot c)) c)
+
+/-- `torch.trapz(y, x)` (binned AUROC copy) -/
+def opBinnedTrapz (a : Args) : Except Err String := do
+  pure (showScalarX (.val (Binned.trapz (← dat a "y") (← dat a "x"))))
+
+/-- `(input >= threshold[:, None]) * target).sum(-1)` and `pred.sum(-1) - that` -/
+def opGeCounts (a : Args) : Except Err String := do
+  let t ← dat a "threshold"; let xs ← dat a "input"; let ys ← dat a "target"
+  pure (outs [showVecQ (t.map fun u => Binned.aurocTp u xs ys), showVecQ (t.map fun u => Binned.aurocFp u xs ys)])
+
+/-- `torch.nan_to_num(tp / (tp + fp), 1.0)` -/
+def opBinnedNanTo1 (a : Args) : Except Err String := do
+  pure (showVecX (List.zipWith (fun x y => Binned.nanTo1 (xdiv x (x + y))) (← dat a "a") (← dat a "b")))
+
+/-- `m[:, c]` -/
+def opColumn (a : Args) : Except Err String := do
+  pure (showVecQ (Binned.column (← rows a "input") (← natA a "c")))
+
+/-! ### multi (TE/Model/Multi.lean) -/
+
+def maskRows (a : Args) (k : String) : Except Err (List (List Bool)) := do
+  pure ((← rows a k).map toBools)
+
+/-- `x[mask]` (2-D) -/
+def opSelectFlat (a : Args) : Except Err String := do
+  pure (showVecQ (Multi.selectFlat (← maskRows a "mask") (← rows a "input")))
+
+/-- `mask.sum(-1, keepdim=True) >= torch.arange(mask.size(-1), 0, -1)` -/
+def opShiftedMask (a : Args) : Except Err String := do
+  let m ← ten a "mask"
+  pure (outMatB (Multi.shiftedMasks ((← rowsOf m).map toBools)) (cols2 m))
+
+/-- `torch.zeros_like(x).masked_scatter_(mask, source)` (2-D mask) -/
+def opMaskedScatterFlat (a : Args) : Except Err String := do
+  let m ← ten a "mask"
+  pure (showMatQ (← Multi.maskedScatterFlat ((← rowsOf m).map toBools) (← dat a "src")) (cols2 m))
+
+/-- `t.split(sizes)` -/
+def opSplitSizes (a : Args) : Except Err String := do
+  pure (outs ((Multi.splitSizes (← nats a "sizes") (← dat a "input")).map showVecQ))
+
+/-- `x.sum(-1)` of a `(t, n)` tensor -/
+def opSumLastDim (a : Args) : Except Err String := do
+  let x ← ten a "input"
+  match x.shape with
+  | [t, n] => pure (showVecQ (Multi.sumLastDim t n x.data))
+  | _ => throw .other
+
+/-- `x.sum(dim=0)` of an `(n, d)` tensor -/
+def opSumDim0 (a : Args) : Except Err String := do
+  let x ← ten a "input"
+  pure (showVecQ (Multi.sumDim0 (cols2 x) (← rowsOf x)))
+
+/-- `mask.sum(-1)` -/
+def opCountTrue (a : Args) : Except Err String := do
+  pure (outN ((← maskRows a "mask").map Multi.countTrue))
+
+/-- `torch.arange(n, 0, -1)` -/
+def opArangeDown (a : Args) : Except Err String := do pure (outN (Multi.arangeDown (← natA a "n")))
+
+/-- `input[indexes == i]`, `target[indexes == i]` -/
+def opQueryRows (a : Args) : Except Err String := do
+  let x ← dat a "input"; let t ← dat a "target"
+  let r := Multi.queryRows (x.zip t) (← ints a "indexes") (← natA a "i")
+  pure (outs [showVecQ (r.map (·.1)), showVecQ (r.map (·.2))])
+
+/-! ### rank (TE/Model/Rank.lean) -/
+
+/-- `torch.gather(input, -1, target.unsqueeze(-1))` -/
+def opGather1 (a : Args) : Except Err String := do
+  let rs ← rows a "input"; let t ← ints a "target"
+  pure (showVecQ (← (rs.zip t).mapM fun p => Rank.gather1 p.1 p.2))
+
+/-- `torch.gt(input, y_score).sum(-1)` after the gather -/
+def opRanks (a : Args) : Except Err String := do
+  pure (outN (← Rank.ranks (← rows a "input") (← ints a "target")))
+
+def optK (a : Args) : Except Err (Option Nat) := liftP (a.nat? "k")
+
+/-- `t.topk(min(k, n))` with `target.gather(-1, idx)`; `k = none` keeps everything -/
+def opTopkPairs (a : Args) : Except Err String := do
+  let x ← dat a "input"; let t ← dat a "target"
+  let r := Rank.topk (← optK a) (x.zip t)
+  pure (outs [showVecQ (r.map (·.1)), showVecQ (r.map (·.2))])
+
+/-- `target.gather(-1, topk idx).sum(-1)` -/
+def opNbRelevant (a : Args) : Except Err String := do
+  let x ← dat a "input"; let t ← dat a "target"
+  pure (showScalarX (.val (Rank.nbRelevant (← optK a) (x.zip t))))
+
+/-- `tensor.nanmean()` -/
+def opNanmean (a : Args) : Except Err String := do pure (showScalarX (Rank.nanmean (← xqs a "x")))
+
+/-- `num_collisions` kernel: `(input[:, None] == input).sum(-1) - 1` -/
+def opNumCollisions (a : Args) : Except Err String := do pure (outI (Rank.numCollisions (← ints a "input")))
+
+/-- `(input < k).float()` -/
+def opFrequencyAtK (a : Args) : Except Err String := do
+  pure (showVecQ (← Rank.frequencyAtK (← dat a "input") (← ratA a "k")))
+
+/-! ### agg (TE/Model/Agg.lean) -/
+
+/-- `torch.sort(x, dim=1, stable=True)` + `y.gather(1, x_idx)` -/
+def opSortPts (a : Args) : Except Err String := do
+  let xs ← dat a "x"; let ys ← dat a "y"
+  let s := Agg.argsortStable xs
+  pure (outs [showVecQ (s.map (·.1)), outN (s.map (·.2)), showVecQ (Agg.gatherBy s ys)])
+
+/-- `x[torch.argsort(x)]`, `w[torch.argsort(x)]` -/
+def opSortWith (a : Args) : Except Err String := do
+  let r := Agg.sortWith (← dat a "x") (← dat a "w")
+  pure (outs [showVecQ r.1, showVecQ r.2])
+
+/-- `torch.searchsorted(sorted, values, right=True)` -/
+def opAggSearchsorted (a : Args) : Except Err String := do
+  let s ← dat a "sorted"
+  pure (outN ((← dat a "input").map (Agg.searchsortedRight s)))
+
+/-- the CDF lines of `_wasserstein_compute` -/
+def opCdf (a : Args) : Except Err String := do
+  let w ← liftP (a.tensor? "w")
+  pure (showVecQ (Agg.wCdf (← dat a "x") (w.map (·.data)) (← dat a "q")))
+
+/-- `torch.diff(v)` -/
+def opDiffs (a : Args) : Except Err String := do pure (showVecQ (Agg.diffs (← dat a "input")))
+
+/-- `torch.cat((torch.Tensor([0]), torch.cumsum(w, dim=0)))` -/
+def opCumFrom (a : Args) : Except Err String := do pure (showVecQ (Agg.cumFrom 0 (← dat a "input")))
+
+/-- `torch.sort(v)` values -/
+def opIsort (a : Args) : Except Err String := do
+  pure (showVecQ (Agg.isort (fun x y => decide (x ≤ y)) (← dat a "input")))
+
+/-- `torch.trapz(y, x)` (aggregation AUC copy; model argument order is `x, y`) -/
+def opAggTrapz (a : Args) : Except Err String := do
+  pure (showScalarX (.val (Agg.trapz (← dat a "x") (← dat a "y"))))
+
+/-- `torch.clamp(x, min=lo, max=hi)` -/
+def opClamp (a : Args) : Except Err String := do
+  let lo ← ratA a "lo"; let hi ← ratA a "hi"
+  pure (showVecQ ((← dat a "input").map (Agg.clampQ lo hi)))
+
+/-- `x.sign()`, `x.abs()` -/
+def opSgnAbs (a : Args) : Except Err String := do
+  let x ← dat a "input"
+  pure (outs [showVecQ (x.map Agg.sgn), showVecQ (x.map Agg.qabs)])
+
+/-- `sse / (sw.abs().clamp(min=eps) * sw.sign())` -/
+def opMseRaw (a : Args) : Except Err String := do
+  pure (showVecX (Agg.mseRaw (← dat a "sse") (← ratA a "sw")))
+
+/-- `torch.max(x)` / `torch.min(x)` (raise on an empty tensor) -/
+def opReduceMaxMin (a : Args) : Except Err String := do
+  let x ← dat a "input"
+  match Agg.reduceBy Agg.qmax x, Agg.reduceBy Agg.qmin x with
+  | some hi, some lo => pure (outs [showScalarX (.val hi), showScalarX (.val lo)])
+  | _, _ => throw .runtime
+
+/-- IEEE arithmetic on extended scalars: `a + b`, `a - b`, `a * b`, `a / b` -/
+def opXarith (a : Args) : Except Err String := do
+  let x ← xqs a "x"; let y ← xqs a "y"
+  pure (outs [showVecX (List.zipWith Agg.xadd x y), showVecX (List.zipWith Agg.xsub x y),
+              showVecX (List.zipWith Agg.xmul x y), showVecX (List.zipWith Agg.xdivX x y)])
+
+/-- `tensor.mean()` / `tensor.sum()` over extended scalars -/
+def opXmean (a : Args) : Except Err String := do
+  let x ← xqs a "x"
+  pure (outs [showScalarX (Agg.xsum x), showScalarX (Agg.xmean x)])
+
+/-! ### sync (TE/Model/Sync.lean) -/
+
+def shapeArg (a : Args) (k : String) : Except Err (List Nat) := nats a k
+
+/-- `F.pad(tensor, pad_dims)` with `pad_dims` built as in `_send_uneven_tensors` -/
+def opPadTo (a : Args) : Except Err String := do
+  let x ← ten a "input"; let m ← shapeArg a "to"
+  if m.length != x.shape.length then throw .other
+  pure (showTQ m (Sync.padTo x.shape m x.data))
+
+/-- `t[[slice(d) for d in size]]` -/
+def opSliceTo (a : Args) : Except Err String := do
+  let x ← ten a "input"; let s ← shapeArg a "to"
+  if s.length != x.shape.length then throw .other
+  pure (showTQ s (Sync.sliceTo x.shape s x.data))
+
+/-- `torch.stack(sizes).max(dim=0).values` / `.min(dim=0).values` -/
+def opPmaxPmin (a : Args) : Except Err String := do
+  let ss ← (← rows a "sizes").mapM toNats
+  pure (outs [outN (Sync.pmax ss), outN (Sync.pmin ss)])
+
+/-! ### window (TE/Model/Window.lean): slice assignment of the sample ring -/
+
+/-- `dst[i : i + len(src)] = src` -/
+def opPlace (a : Args) : Except Err String := do
+  pure (showVecQ (Window.place (← dat a "dst") (← natA a "i") (← dat a "src")))
+
+end OpsA
+
+open OpsA in
+def opsFns : List (String × (Args → Except Err String)) := [
+  -- count
+  ("op.thresh", opThresh), ("op.argmax_first", opArgmaxFirst), ("op.scatter_add", opScatterAdd),
+  ("op.scatter_ones", opScatterOnes), ("op.rank_of", opRankOf), ("op.topk_mask", opTopkMask),
+  ("op.topk_indicator", opTopkIndicator), ("op.div_nan0", opDivNan0), ("op.xdiv", opXdiv),
+  ("op.mean_x", opMeanX), ("op.l1normalize", opL1Normalize), ("op.transpose", opTranspose),
+  ("op.coo_dense", opCooDense), ("op.thresh_and", opThreshAnd),
+  -- curve
+  ("op.sort_desc", opSortDesc), ("op.diff_mask", opDiffMask), ("op.cumsum", opCumsum), ("op.select", opSelect),
+  ("op.pad_left", opPadLeft), ("op.trapz", opTrapz), ("op.riemann", opRiemann), ("op.nan_to_1", opNanTo1),
+  ("op.list_max", opListMax), ("op.flip", opFlip), ("op.curve_mean_x", opCurveMeanX),
+  -- binned
+  ("op.searchsorted_right", opSearchsortedRight), ("op.bucket", opBucket), ("op.histc_unit", opHistcUnit),
+  ("op.suffix_sums", opSuffixSums), ("op.binary_code", opBinaryCode), ("op.flat_code_mc", opFlatCodeMc),
+  ("op.flat_code_ml", opFlatCodeMl), ("op.mem_mat", opMemMat), ("op.sorted_b", opSortedB),
+  ("op.in_unit_b", opInUnitB), ("op.one_hot", opOneHot), ("op.binned_trapz", opBinnedTrapz),
+  ("op.ge_counts", opGeCounts), ("op.binned_nan_to_1", opBinnedNanTo1), ("op.column", opColumn),
+  -- multi
+  ("op.select_flat", opSelectFlat), ("op.shifted_mask", opShiftedMask),
+  ("op.masked_scatter_flat", opMaskedScatterFlat), ("op.split_sizes", opSplitSizes),
+  ("op.sum_last_dim", opSumLastDim), ("op.sum_dim0", opSumDim0), ("op.count_true", opCountTrue),
+  ("op.arange_down", opArangeDown), ("op.query_rows", opQueryRows),
+  -- rank
+  ("op.gather1", opGather1), ("op.ranks", opRanks), ("op.topk_pairs", opTopkPairs),
+  ("op.nb_relevant", opNbRelevant), ("op.nanmean", opNanmean), ("op.num_collisions", opNumCollisions),
+  ("op.frequency_at_k", opFrequencyAtK),
+  -- agg
+  ("op.sort_pts", opSortPts), ("op.sort_with", opSortWith), ("op.agg_searchsorted", opAggSearchsorted),
+  ("op.cdf_searchsorted", opCdf), ("op.diffs", opDiffs), ("op.cum_from", opCumFrom), ("op.isort", opIsort),
+  ("op.agg_trapz", opAggTrapz), ("op.clamp", opClamp), ("op.sgn_abs", opSgnAbs), ("op.mse_raw", opMseRaw),
+  ("op.reduce_max_min", opReduceMaxMin), ("op.xarith", opXarith), ("op.xmean", opXmean),
+  -- sync
+  ("op.pad_to", opPadTo), ("op.slice_to", opSliceTo), ("op.pmax_pmin", opPmaxPmin),
+  -- window
+  ("op.place", opPlace)
+]
 
 end TE.Driver
